@@ -104,9 +104,9 @@ Init ==
 
 Misc ==
   /\ phase = "misc"
-  /\ \E caw \in Caws, ctrl \in {0, 1}, timer \in {0, 1}, ident \in {0, 1}, rsv0 \in {0, 1}, n \in 1..3 :
+  /\ \E caw \in Caws, ctrl \in {0, 1}, timer \in {0, 1}, ident \in {0, 1}, rsv \in 0..3, n \in 1..3 :
        /\ (c.cpu = "stub" => timer = 1)           \* finalize needs at least one interrupt once a CPU has a vector
-       /\ c' = c @@ [caw |-> caw, ctrl |-> ctrl, timer |-> timer, ident |-> ident, rsv0 |-> rsv0]
+       /\ c' = c @@ [caw |-> caw, ctrl |-> ctrl, timer |-> timer, ident |-> ident, rsv0 |-> (IF rsv = 0 THEN 1 ELSE 0)]
        /\ np' = n
   /\ phase' = "csr" /\ UNCHANGED <<ps, cur, nregs>>
 
